@@ -307,12 +307,16 @@ func (w *world) play(items []item) {
 
 		return items[i].prio < items[j].prio
 	})
+	prevNowait := false
 	for _, it := range items {
-		w.goTo(it.at)
+		if !(prevNowait && it.at == w.now()) {
+			w.goTo(it.at)
+		}
 		it.fn(w)
 		if !it.nowait {
 			synctest.Wait()
 		}
+		prevNowait = it.nowait
 	}
 	synctest.Wait()
 }
@@ -540,8 +544,10 @@ func (w *world) checkTx(tr *txrun, tag string, wantArr []time.Duration, outs []o
 // postCheck judges "nothing left in the table" behaviourally: late responses
 // for every finished id, then a fresh transaction that must be answered at
 // once; then Close, 10 s of silence, and the bubble must drain.
-// cause names what preceded (used for the signature of a dead read loop).
-func (w *world) postCheck(finished []*txrun, cause string) (wedged bool) {
+// causeWedged / causeExited name what preceded (used in the signature when
+// the read loop turns out to be blocked for ever / to have returned).
+// The returned state is "" (fine), "wedged", "exited", "exited+wedged" or "other".
+func (w *world) postCheck(finished []*txrun, causeWedged, causeExited string) (state string) {
 	w.cs.WriteErr, w.cs.WriteErrOnce = nil, false
 	at := w.now()
 	size := tableSize(w.cl)
@@ -560,33 +566,36 @@ func (w *world) postCheck(finished []*txrun, cause string) (wedged bool) {
 	}
 	w.deliver(srvAddr, response(fresh.id, 901))
 	synctest.Wait()
-	o := fresh.observe()
-	okResp := o.Kind == "resp" && o.OwnID && o.Marker == 901 && o.At == at
-	okErr := w.closed && o.Kind == "error" && o.At == at // a closed client may refuse
-	if !okResp && !okErr {
-		state := "read-loop-wedged"
-		if o.Kind != "pending" {
-			state = "fresh-transaction-" + o.label()
-		} else if err := w.cl.Listen(); err == nil {
-			// Listen succeeds only when the previous loop has exited
-			state = "read-loop-exited"
-			synctest.Wait()
-		}
-		wedged = true
-		w.violate(cause+":"+state, "after late responses for the finished transaction(s) a fresh transaction answered at %v is %v [Client.trMap.Size() after the transaction(s) had finished: %d]",
-			at, o, size)
+	good := func(o obs) bool {
+		okResp := o.Kind == "resp" && o.OwnID && o.Marker == 901 && o.At == at
+		okErr := w.closed && o.Kind == "error" && o.At == at // the property does not forbid a closed client to refuse
+
+		return okResp || okErr
 	}
-	for _, tr := range finished {
-		if !tr.done {
-			wedged = true
+	o := fresh.observe()
+	tail := fmt.Sprintf(" [Client.trMap.Size() after the transaction(s) had finished: %d]", size)
+	switch {
+	case good(o):
+	case o.Kind != "pending":
+		state = "other"
+		w.violate("post:fresh-transaction:"+o.label(), "a fresh transaction answered at once at %v ended with %v%s", at, o, tail)
+	case w.cl.Listen() == nil: // Listen succeeds only when the previous read loop has returned
+		state = "exited"
+		w.violate(causeExited+":read-loop-exited", "after late responses for the finished transaction(s) a fresh transaction answered at %v stays pending; "+
+			"Client.Listen() succeeds again, i.e. the read loop had returned%s", at, tail)
+		synctest.Wait() // the restarted loop reads what is queued
+		if o = fresh.observe(); !good(o) {
+			state = "exited+wedged"
+			w.violate(causeWedged+":read-loop-wedged", "after the read loop was restarted with Listen() the fresh transaction is %v%s", o, tail)
 		}
+	default:
+		state = "wedged"
+		w.violate(causeWedged+":read-loop-wedged", "after late responses for the finished transaction(s) a fresh transaction answered at %v stays pending "+
+			"and Client.Listen() says the read loop is still running: it is blocked for ever%s", at, tail)
 	}
 	w.closeClient("final")
 	if !fresh.done {
-		synctest.Wait()
-		if !fresh.done {
-			w.violate("hang:fresh-transaction-after-close", "fresh transaction still pending after Close")
-		}
+		w.violate("hang:fresh-transaction-after-close", "fresh transaction still pending after Close")
 	}
 	for _, tr := range finished {
 		if !tr.done {
@@ -603,7 +612,21 @@ func (w *world) postCheck(finished []*txrun, cause string) (wedged bool) {
 	_ = w.ss.Close()
 	synctest.Wait()
 
-	return wedged
+	return state
+}
+
+// foldExited replaces the main-phase findings viols[from:to] of a case whose
+// read loop had returned by one finding that names the cause.
+func (w *world) foldExited(from, to int, cause string) {
+	if to <= from {
+		return
+	}
+	var d []string
+	for _, v := range w.viols[from:to] {
+		d = append(d, v.sig+": "+v.detail)
+	}
+	folded := viol{cause + ":read-loop-exited:matching-response-not-returned", strings.Join(d, " || ")}
+	w.viols = append(append(append([]viol{}, w.viols[:from]...), folded), w.viols[to:]...)
 }
 
 // runBubble runs body inside a synctest bubble and turns a bubble that cannot
